@@ -1,6 +1,7 @@
 import SJ.Props.C06
 import SJ.Props.C06Int
 import SJ.Props.C06Via
+import SJ.Props.C06Typed128
 #print axioms SJ.Props.C06.c06_typed
 #print axioms SJ.Props.C06.c06_accessors
 #print axioms SJ.Props.C06Int.c06_overflow_guard_spec
@@ -12,3 +13,6 @@ import SJ.Props.C06Via
 #print axioms SJ.Props.C06.c06_via_value
 #print axioms SJ.Props.C06.c06_via_value_ap_partial
 #print axioms SJ.Props.C06.c06_ap_negative_zero_via_value
+#print axioms SJ.Props.C06.specInt_eq_targetInt
+#print axioms SJ.Props.C06.c06_typed_text
+#print axioms SJ.Props.C06.c06_typed_128
